@@ -20,6 +20,7 @@ from typing import Dict, FrozenSet, List, Optional, Set, Tuple
 
 from ..keval import KEval, Ref
 from ..poly import Poly, ZERO, ONE
+from fractions import Fraction
 from ..forms import check_accumulate, canon_store, ref_store, short, expr_poly, src_poly, src_poly as P_
 from .. import wire, paths
 from ..model import norm_text, AnchorMissing, FuncInfo, Project
@@ -300,16 +301,13 @@ def rule_data(ctx, p: Project, K: KEval):
     ok = len(calls) == 1 and len(loops) == 1 and norm_text(loops[0].iter) == "self.linear_obj_list" and isinstance(loops[0].target, ast.Name)
     if ok:
         ov = loops[0].target.id
-        kw = wire.kwtext(calls[0])
-        ok = kw == {"data_to_pix_unique": f"{ov}.unique_mappings.data_to_pix_unique", "data_weights": f"{ov}.unique_mappings.data_weights", "pix_lengths": f"{ov}.unique_mappings.pix_lengths", "reconstruction": "reconstruction"}
-        rec = [n for n in loops[0].body if isinstance(n, ast.Assign) and norm_text(n.targets[0]) == "reconstruction"]
-        ok = ok and len(rec) == 1 and norm_text(rec[0].value) == f"reconstruction_dict[{ov}]"
+        kw = wire.kwr(w, calls[0])
+        rec = f"self.source_quantity_dict_from(source_quantity=self.reconstruction)[{ov}]"
+        ok = kw == {"data_to_pix_unique": f"{ov}.unique_mappings.data_to_pix_unique", "data_weights": f"{ov}.unique_mappings.data_weights", "pix_lengths": f"{ov}.unique_mappings.pix_lengths", "reconstruction": rec}
         conv = [c for c in w.calls() if isinstance(c.func, ast.Attribute) and c.func.attr == "convolve_image_no_blurring"]
         ok = ok and len(conv) == 1 and norm_text(conv[0].func.value) == "self.convolver"
         sums = [c for c in w.calls() if norm_text(c.func) in ("np.sum", "numpy.sum")]
-        ok = ok and len(sums) == 1 and expr_poly(sums[0].args[0]) == P_("reconstruction * operated_mapping_matrix") and wire.kwtext(sums[0]).get("axis") == "1"
-        opm = [n for n in ast.walk(loops[0]) if isinstance(n, ast.Assign) and norm_text(n.targets[0]) == "operated_mapping_matrix"]
-        ok = ok and len(opm) == 1 and norm_text(opm[0].value).replace(" ", "").replace("\n", "") == f"self.linear_func_operated_mapping_matrix_dict[{ov}]"
+        ok = ok and len(sums) == 1 and expr_poly(wire.inline_locals(w, sums[0].args[0])) == P_(f"{rec} * self.linear_func_operated_mapping_matrix_dict[{ov}]") and wire.kwtext(sums[0]).get("axis") == "1"
     ctx.ob(rule, w.key, ok, where=w, node=calls[0] if calls else w.node, construct="mapper: unique mappings of the same object x its slice, then PSF convolution; function list: sum_j s_j B[:, j] of the same object",
            message="the model data of object k must be built from that object's own mappings / operated matrix and its own slice of the reconstruction")
     t = p.func(f"{AB}.mapped_reconstructed_data")
@@ -646,18 +644,27 @@ def rule_state(ctx, p: Project):
 
     def one(name):
         return A[name][0] if len(A.get(name, [])) == 1 else None
-    q, al, d, idd, U, pin, Pst, sp, sz = one("q"), one("alpha"), one("d"), one("id_delete"), one("U"), one("P_inorder"), one("P[d<=tolerance]"), one("s_chol[P_inorder]"), one("s_chol[~P]")
-    ok = q is not None and expr_poly(q.value) in (P_("P * (s_chol <= tolerance)"), P_("(s_chol <= tolerance) * P"))
-    ctx.ob(rule, "fix: blocking set q = P and s_chol <= tolerance", ok, where=g, node=q or g.node, construct=norm_text(q)[:80] if q else "missing", message="the blocking set must be the passive indices whose new solution is not positive")
-    ok = al is not None and isinstance(al.value, ast.Call) and norm_text(al.value.func) in ("np.min", "numpy.min") and expr_poly(wire.inline_locals(g, al.value.args[0])) == expr_poly(wire.inline_locals(g, ast.copy_location(ast.parse("d[q] / (d[q] - s_chol[q])", mode="eval").body, al.value)))
-    ctx.ob(rule, "fix: step alpha = min d/(d - s) over q", ok, where=g, node=al or g.node, construct=norm_text(al)[:80] if al else "missing", message="the step length must be the largest that keeps d non-negative")
-    ok = d is not None and expr_poly(d.value) == P_("d + alpha * (s_chol - d)")
-    ctx.ob(rule, "fix: d moves toward s by alpha", ok, where=g, node=d or g.node, construct=norm_text(d)[:80] if d else "missing", message="d must move from d toward s_chol by alpha")
-    ok = idd is not None and norm_text(idd.value).replace(" ", "") == "np.where(d[P_inorder]<=tolerance)[0]"
-    ok = ok and U is not None and isinstance(U.value, ast.Call) and norm_text(U.value.func) == "choldeleteindexes" and [norm_text(x) for x in (_call_args(U.value, ("U", "indexes")) or [])] == ["U", "id_delete"] and pin is not None and norm_text(pin.value).replace(" ", "") == "np.delete(P_inorder,id_delete)"
+    d, U, pin, Pst, sp, sz = one("d"), one("U"), one("P_inorder"), one("P[d<=tolerance]"), one("s_chol[P_inorder]"), one("s_chol[~P]")
+
+    def inl(e):
+        return wire.inline_locals(g, e)
+
+    def pe(src):
+        return expr_poly(ast.parse(src, mode="eval").body)
+    # the temporaries (blocking set, step length, deleted indexes) are read through whatever they are called, or wherever they are written in place
+    got = expr_poly(inl(d.value)) if d is not None else None
+    Q = "(P * (s_chol <= tolerance))"
+    ok = got is not None and got == pe(f"d + np.min(d[{Q}] / (d[{Q}] - s_chol[{Q}])) * (s_chol - d)")
+    ctx.ob(rule, "fix: d moves toward s by alpha = min d/(d - s) over the blocking set q = P and s_chol <= tolerance", ok, where=g, node=d or g.node, construct=norm_text(inl(d.value))[:160] if d else "missing",
+           message="d must move from d toward s_chol by the largest step that keeps d non-negative: alpha = min over the passive indices whose new solution is not positive of d / (d - s_chol)")
+    sel = "np.where(d[P_inorder]<=tolerance)[0]"
+    ua = _call_args(U.value, ("U", "indexes")) if U is not None and isinstance(U.value, ast.Call) and norm_text(U.value.func) == "choldeleteindexes" else None
+    ok = ua is not None and norm_text(ua[0]) == "U" and norm_text(inl(ua[1])).replace(" ", "") == sel
+    pa = pin.value if pin is not None and isinstance(pin.value, ast.Call) and norm_text(pin.value.func) in ("np.delete", "numpy.delete") and len(pin.value.args) == 2 and not pin.value.keywords else None
+    ok = ok and pa is not None and norm_text(pa.args[0]) == "P_inorder" and norm_text(inl(pa.args[1])).replace(" ", "") == sel
     ok = ok and Pst is not None and norm_text(Pst.value) == "False"
     if ok:
-        ok = idd.lineno < U.lineno and idd.lineno < pin.lineno and d.lineno < idd.lineno and d.lineno < Pst.lineno
+        ok = d.lineno < U.lineno and d.lineno < pin.lineno and d.lineno < Pst.lineno
     ctx.ob(rule, "fix: factor, ordered list and P lose the same indices (d <= tolerance)", ok, where=g, node=U or pin or g.node,
            construct="id_delete = where(d[P_inorder] <= tolerance); U = choldeleteindexes(U, id_delete); P_inorder = delete(P_inorder, id_delete); P[d <= tolerance] = False",
            message="the Cholesky factor, the ordered passive list and the boolean passive set must drop exactly the same indices, selected by d <= tolerance after the step")
@@ -689,9 +696,38 @@ def _stmt_of(f: FuncInfo, node: ast.AST) -> ast.AST:
 def rule_chol(ctx, p: Project, K: KEval):
     rule = "C05.chol"
     SL = Poly.fn("slice", L0 + 1, NONE, NONE)
-    for name, sign in (("_cholupdate", 1), ("_choldowndate", -1)):
-        f = p.func(f"{CH}:{name}")
-        S = K.summarize(f)
+    # the rank-one kernels are found from their call sites (whatever they are called, one shared kernel with a sign argument included): the call inside the deletion
+    # loop of choldeleteindexes must be an UPDATE (+), the call of cholinsert behind the inserted row a DOWNDATE (-)
+    def _kernel_calls(caller):
+        out = []
+        for c_ in caller.calls():
+            tg_ = [t_ for t_ in p.resolve_call(c_, caller) if t_.module.name == CH and t_ is not caller and len(t_.params) >= 2]
+            if len(tg_) == 1 and len(c_.args) + len(c_.keywords) >= 2:
+                out.append((c_, tg_[0]))
+        return out
+    kernels = []
+    for caller_name, sign in (("choldeleteindexes", 1), ("cholinsert", -1)):
+        ks = _kernel_calls(p.func(f"{CH}:{caller_name}"))
+        ctx.ob(rule, f"{caller_name}: one rank-one kernel call", len(ks) == 1, where=p.func(f"{CH}:{caller_name}"), node=ks[0][0] if ks else p.func(f"{CH}:{caller_name}").node, construct=f"{len(ks)} kernel call(s)",
+               message="the trailing block must be corrected by exactly one rank-one kernel call")
+        for c_, t_ in ks[:1]:
+            b_, _ = Project.bind(c_, t_)
+            extra = {}
+            for q_ in t_.params[2:]:
+                v_ = b_.get(q_)
+                if v_ is None and q_ in t_.defaults:
+                    v_ = t_.defaults[q_]
+                try:
+                    extra[q_] = Poly.const(Fraction(ast.literal_eval(v_))) if v_ is not None else None
+                except Exception:  # noqa - not a literal: stays symbolic
+                    extra[q_] = None
+            kernels.append((t_, sign, {k_: v_ for k_, v_ in extra.items() if v_ is not None}))
+    for f, sign, extra in kernels:
+        name = f.name
+        S = K.summarize(f, dict(extra))
+        if f.params[:2] != ["U", "x"]:
+            # the expected forms below are written over (U, x): the kernel's own names for the factor and the vector
+            S = K.summarize(f, dict(extra, **{f.params[0]: Ref("U"), f.params[1]: Ref("x")}))
         Ukk, xk = E_("U", L0, L0), E_("x", L0)
         r = Poly.fn("sqrt", Ukk * Ukk + sign * xk * xk)
         loop = (ZERO, S_("size(x)") - 1, ONE)
@@ -768,12 +804,14 @@ def rule_chol(ctx, p: Project, K: KEval):
         Ls = [n for n in ast.walk(loops[0]) if isinstance(n, ast.Assign) and norm_text(n.targets[0]) == "L"]
         ok = len(Ls) == 1 and norm_text(Ls[0].value).replace(" ", "") in (f"np.delete(np.delete(U,{iv},axis=0),{iv},axis=1)", f"np.delete(np.delete(U,{iv},axis=1),{iv},axis=0)")
         ctx.ob(rule, "choldeleteindexes: row and column of the index removed", ok, where=f, node=Ls[0] if Ls else loops[0], construct=norm_text(Ls[0])[:90] if Ls else "missing", message="L = U without row and column `index`")
-        ups = [c for c in ast.walk(loops[0]) if isinstance(c, ast.Call) and norm_text(c.func) == "_cholupdate"]
-        ok = len(ups) == 1 and _call_args(ups[0], ("U", "x")) is not None
+        ups = [c for c, t_ in _kernel_calls(f) if any(x is c for x in ast.walk(loops[0]))]
+        kt = [t_ for c, t_ in _kernel_calls(f) if ups and c is ups[0]]
+        bnd = Project.bind(ups[0], kt[0])[0] if len(ups) == 1 and kt else {}
+        ok = len(ups) == 1 and bool(kt) and all(q_ in bnd for q_ in kt[0].params[:2])
         det = "missing"
         if ok:
-            view, vec = _call_args(ups[0], ("U", "x"))
-            det = f"_cholupdate({norm_text(view)}, {norm_text(vec)})"
+            view, vec = bnd[kt[0].params[0]], bnd[kt[0].params[1]]
+            det = f"{norm_text(ups[0].func)}({norm_text(view)}, {norm_text(vec)})"
             ok = _index_form(view) == ("L", (("slice", P_(iv), None), ("slice", P_(iv), None))) and _index_form(vec) == ("U", (("at", P_(iv)), ("slice", P_(iv) + 1, None)))
             conds = wire.path_conds(f, ups[0])
             ok = ok and len(conds) == 1 and (wire.cond_holds(conds, f"{iv} != L.shape[0]") or wire.cond_holds(conds, f"{iv} < L.shape[0]"))
